@@ -599,7 +599,11 @@ def update_wrapper(wrapper, func, injected=None, expected=None, build_from=None,
             raise
 
     for arg, default in expected_items:
-        fb.add_arg(arg, default)  # may raise ExistingArgument
+        # a required parameter cannot follow positional ones that have
+        # defaults (their defaults would slide onto it): it is added as
+        # keyword-only instead
+        kwonly = default is NO_DEFAULT and bool(fb.defaults)
+        fb.add_arg(arg, default, kwonly=kwonly)  # may raise ExistingArgument
 
     # the name the generated body calls the wrapper by must not be
     # shadowed by a parameter (or the function itself) of that name
